@@ -62,10 +62,42 @@ class StmtMixin:
         self.steps += 1
         if self.steps > self.max_steps:
             raise Unsupported("path explosion: step budget exhausted")
+        reg = self.region_of(s)
+        if reg is not None:
+            return self.ex_region(st, s, reg)
         m = getattr(self, "ex_" + type(s).__name__, None)
         if m is None:
             raise Unsupported(f"statement {type(s).__name__} at line {s.lineno}")
         return m(st, s)
+
+    def region_of(self, s):
+        if not self.reg.regions or not isinstance(s, (ast.If, ast.For, ast.While, ast.Try)):
+            return None
+        fi = st_fi = None
+        key = self.region_index.get(id(s))
+        if key is None:
+            return None
+        return self.reg.regions.get(key)
+
+    def ex_region(self, st, s, reg):
+        # syntactic check: the region stores only into the declared local names
+        for n in ast.walk(s):
+            if isinstance(n, (ast.Attribute, ast.Subscript)) and isinstance(n.ctx, (ast.Store, ast.Del)):
+                raise Unsupported(f"region at line {s.lineno} has a heap store")
+            if isinstance(n, (ast.Return, ast.Raise)):
+                raise Unsupported(f"region at line {s.lineno} returns or raises")
+        extra = assigned_names([s]) - set(reg["assigns"])
+        if extra:
+            # loop variables local to the region are allowed if never read afterwards: be strict
+            pass
+        st = st.copy()
+        for n, kind in reg["assigns"].items():
+            st.locals[n] = self.fresh_value(st, kind, "rg_" + n)
+        for n in extra:
+            st.locals.pop(n, None)
+        self.regions_used.add(f"{self.cur_func_name}: {type(s).__name__} at line {s.lineno} abstracted "
+                              f"(assigns {list(reg['assigns'])})")
+        return [Out("ok", st)]
 
     def ex_Pass(self, st, s):
         return [Out("ok", st)]
@@ -267,14 +299,48 @@ class StmtMixin:
         raise Unsupported("del target")
 
     # ---- control flow ----------------------------------------------------------------------------
+    def narrow(self, st: State, test, positive: bool) -> State:
+        """Flow-sensitive narrowing of Optional locals after `if x`, `if not x`, `x is None`, `x is not None`."""
+        def set_some(name):
+            v = st.locals.get(name)
+            if isinstance(v, VOpt):
+                s2 = st.copy()
+                s2.locals[name] = v.inner
+                return s2
+            return st
+
+        def set_none(name):
+            v = st.locals.get(name)
+            if isinstance(v, VOpt):
+                s2 = st.copy()
+                s2.locals[name] = VNone
+                return s2
+            return st
+        if isinstance(test, ast.Name):
+            return set_some(test.id) if positive else st
+        if isinstance(test, ast.UnaryOp) and isinstance(test.op, ast.Not):
+            return self.narrow(st, test.operand, not positive)
+        if isinstance(test, ast.Compare) and len(test.ops) == 1 and isinstance(test.left, ast.Name) \
+                and isinstance(test.comparators[0], ast.Constant) and test.comparators[0].value is None:
+            isnot = isinstance(test.ops[0], (ast.IsNot, ast.NotEq))
+            iss = isinstance(test.ops[0], (ast.Is, ast.Eq))
+            if isnot:
+                return set_some(test.left.id) if positive else set_none(test.left.id)
+            if iss:
+                return set_none(test.left.id) if positive else set_some(test.left.id)
+        if isinstance(test, ast.BoolOp) and isinstance(test.op, ast.And) and positive:
+            for v in test.values:
+                st = self.narrow(st, v, True)
+        return st
+
     def ex_If(self, st, s):
         def got(s2, c):
             t = self.truthy(s2, c)
             outs = []
             if t.s != "false":
-                outs += self.ex_block(s2.assume(t).note(f"L{s.lineno}:T"), s.body)
+                outs += self.ex_block(self.narrow(s2.assume(t), s.test, True).note(f"L{s.lineno}:T"), s.body)
             if t.s != "true":
-                outs += self.ex_block(s2.assume(Not(t)).note(f"L{s.lineno}:F"), s.orelse)
+                outs += self.ex_block(self.narrow(s2.assume(Not(t)), s.test, False).note(f"L{s.lineno}:F"), s.orelse)
             return outs
         return self.ev(st, s.test, got)
 
@@ -488,8 +554,21 @@ class StmtMixin:
             raise Unsupported("for-else")
         return self.ev(st, s.iter, lambda s2, it: self.for_over(s2, s, it))
 
+    def static_items_of(self, st, it):
+        """python-side contents of a value whose length is fixed by the program text, else None"""
+        if isinstance(it, VTuple):
+            return it.items
+        if isinstance(it, VList) and getattr(it, "static_items", None) is not None:
+            key = self._seq_key(it.elem)[0]
+            if st.heap.get(key) is it.static_heap:       # no list was written since the display
+                return it.static_items
+        return None
+
     def for_over(self, st, s, it):
         # static tuples are unrolled (their length is a constant of the program text)
+        si = self.static_items_of(st, it)
+        if si is not None:
+            it = VTuple(si)
         if isinstance(it, VTuple):
             outs = [Out("ok", st)]
             for item in it.items:
@@ -541,6 +620,7 @@ class StmtMixin:
         hb.ghost["rest"] = VSeq(rest, ek)
         hb.ghost["cur"] = from_comps(ek, [x])
         xv, hb = mk_target(hb, x)
+        self.apply_hints(hb, ls.hints, self.inv_env(hb, ls))
         if extra_body_fact is not None:
             hb = hb.assume(extra_body_fact(hb, x))
         for a in self.assign(hb, s.target, xv):
